@@ -306,7 +306,7 @@ class Run:
             for _ in range(n_actions):
                 kind = self.rng.choice(kinds)
                 self.do_action(kind)
-                gap = self.rng.choice([0.0, 0.05, 0.5, 2.0, 5.0, 12.0, 30.0])
+                gap = self.rng.choice(knobs.get('gaps', [0.0, 0.05, 0.5, 2.0, 5.0, 12.0, 30.0]))
                 w.run_for(gap)
             if getattr(self, 'reboot_until', 0.0) > w.now:
                 w.run_until(self.reboot_until + 1.0)
